@@ -303,3 +303,40 @@ B("c07-levels-from-set-order", "C07", "R7.7", (CL, "            categories = sor
 S("c07-benign-immutable-constant", "C07", (MX, "_log = logging.getLogger(\"formulae\")\n", "_log = logging.getLogger(\"formulae\")\nWRAP_WIDTH = 100\n"))
 S("c07-benign-never-read-attr", "C07", (TT, "        Zi = linalg.khatri_rao(Ji.T, Xi.T).T\n        return Zi", "        Zi = linalg.khatri_rao(Ji.T, Xi.T).T\n        self._last_shape_for_debugging = Zi.shape\n        return Zi"))
 S("c07-benign-copy-then-mutate", "C07", (TR, "        return x - self.mean", "        out = np.array(x, dtype=float)\n        out -= self.mean\n        return out"))
+
+# ------------------------------------------------------------------ C16
+B("c16-B-other-function", "C16", "R16.1", (TR, '        "B": binary,', '        "B": I,'))
+B("c16-standardize-is-center", "C16", "R16.1", (TR, '        "standardize": Scale,', '        "standardize": Center,'))
+B("c16-T-drops-ref", "C16", "R16.1", (TR, "    return CategoricalBox(data, Treatment(ref), levels)", "    return CategoricalBox(data, Treatment(), levels)"))
+B("c16-S-uses-treatment", "C16", "R16.1", (TR, "    return CategoricalBox(data, Sum(omit), levels)", "    return CategoricalBox(data, Treatment(omit), levels)"))
+B("c16-C-drops-levels", "C16", "R16.1", (TR, "    return CategoricalBox(data, contrast, levels)", "    return CategoricalBox(data, contrast, None)"))
+B("c16-box-levels-ignored", "C16", "R16.1", (CL, "        if levels is None:\n            categories = sorted(list(set(data)))\n        else:\n            categories = levels", "        categories = sorted(list(set(data)))"))
+B("c16-box-contrast-ignored", "C16", "R16.1", (CL, "        contrast = box.contrast\n\n        if contrast is None:\n            contrast = Treatment()", "        contrast = Treatment()"))
+B("c16-offset-constant-training-size", "C16", "R16.3", (CL, "            result = np.ones(len(data_mask.index)) * self.call.args[0].value", "            result = self._intermediate_data.eval()"))
+B("c16-prop-trials-training", "C16", "R16.3", (CL, "            name = self.call.args[1].name\n            values = data_mask[name]", "            values = self._intermediate_data.trials"))
+B("c16-response-new-data-any-kind", "C16", "R16.3", (MX, "        if self.kind == \"proportion\":\n            return self.term.term.eval_new_data(data)\n        raise ValueError(\"Can't evaluate response term with kind different to 'proportion'\")", "        return self.term.term.eval_new_data(data)"))
+B("c16-offset-guard-after-store", "C16", "R16.4", (TR, "        self.size = None\n        if not (is_numeric_dtype(x) or isinstance(x, (int, float))):\n            raise ValueError(\"offset() can only be used with numeric variables.\")\n", "        self.size = None\n"))
+B("c16-offset-response-allowed", "C16", "R16.4", (CL, "        if self.is_response:\n            raise ValueError(\"offset() cannot be used as a response term.\")\n", ""))
+B("c16-binary-no-refusal", "C16", "R16.4", (TR, "    if not sum(booleans):\n        raise ValueError(f\"No value in 'x' is equal to \\\"{success}\\\"\")\n", ""))
+B("c16-prop-le-guard-removed", "C16", "R16.4", (TR, "        if not (np.less_equal(successes, trials)).all():\n            raise ValueError(\"'successes' cannot be greater than 'trials'\")\n", ""))
+B("c16-binary-polarity", "C16", "R16.6", (TR, "    return np.where(booleans, 1, 0)", "    return np.where(booleans, 0, 1)"))
+B("c16-binary-default-largest", "C16", "R16.6", (TR, "        success = categories[0]", "        success = categories[-1]"))
+B("c16-prop-columns-swapped", "C16", "R16.6", (TR, "        return np.vstack([self.successes, self.trials]).T", "        return np.vstack([self.trials, self.successes]).T"))
+S("c16-benign-docstring", "C16", (TR, "    It is a shorthand for C(x, Sum)", "    It is a shorthand for C(x, Sum(omit))"))
+
+# ------------------------------------------------------------------ C15
+B("c15-component-count-guard-removed", "C15", "R15.1", (TT, "            n = len(term.components)\n            if n == 1:\n                self.term = term\n                self.term.components[0].is_response = True\n            else:\n                raise ValueError(f\"The response term must contain only one component, not {n}.\")",
+                                                      "            n = len(term.components)\n            self.term = term\n            self.term.components[0].is_response = True"))
+B("c15-response-not-marked", "C15", "R15.1", (TT, "                self.term.components[0].is_response = True\n", ""))
+B("c15-response-reduced-coding", "C15", "R15.2", (TT, "        self.term.set_data(spans_intercept=True)", "        self.term.set_data(spans_intercept=False)"))
+B("c15-set-data-before-set-type", "C15", "R15.2", (MX, "        self.term.set_type(self.data, self.env)\n        self.term.set_data()", "        self.term.set_data()\n        self.term.set_type(self.data, self.env)"))
+B("c15-level-not-passed", "C15", "R15.3", (RS, "        return Term(Variable(expr.name.lexeme, level))", "        return Term(Variable(expr.name.lexeme))"))
+B("c15-reference-used-for-predictors", "C15", "R15.3", (VR, "        if self.is_response and self.reference is not None:", "        if self.reference is not None:"))
+B("c15-nested-bracket-allowed", "C15", "R15.3", (P, "                    if level.level is not None:\n                        raise ParseError(\"Are you using nested brackets? Why?\")\n", ""))
+B("c15-encoding-reads-response", "C15", "R15.4", (TT, "        groups = self._get_encoding_groups()\n", "        groups = self._get_encoding_groups()\n        if self.response is not None and self.response.term.kind == \"categoric\":\n            groups = groups[:1]\n"))
+B("c15-is-response-read-in-numeric", "C15", "R15.4", (CL, "        if isinstance(x, np.ndarray):\n            self.value = x\n        elif isinstance(x, pd.Series):\n            self.value = x.values\n        else:\n            raise ValueError(f\"Call result is of an unrecognized type ({type(x)}).\")\n\n    def eval_categoric",
+                                                        "        if isinstance(x, np.ndarray):\n            self.value = x\n        elif isinstance(x, pd.Series):\n            self.value = x.values if not self.is_response else x.values.astype(float)\n        else:\n            raise ValueError(f\"Call result is of an unrecognized type ({type(x)}).\")\n\n    def eval_categoric"))
+B("c15-common-from-all-terms", "C15", "R15.4", (MX, "            self.common = CommonEffectsMatrix(self.model.common_terms)", "            self.common = CommonEffectsMatrix(self.model.terms)"))
+B("c15-response-always-built", "C15", "R15.5", (MX, "        if self.model.response:\n            self.response = ResponseMatrix(self.model.response)\n            self.response.evaluate(data, env)", "        self.response = ResponseMatrix(self.model.response)\n        if self.model.response:\n            self.response.evaluate(data, env)"))
+B("c15-prop-columns-swapped", "C15", "R15.6", (TR, "        return np.vstack([self.successes, self.trials]).T", "        return np.vstack([self.trials, self.successes]).T"))
+S("c15-benign-message", "C15", (TT, '"The response term must be of class Term, not {type(term)}."', '"The response must be a Term, not {type(term)}."'))
